@@ -420,6 +420,14 @@ func BuildUpdates(us []merge.Update) []*api.ContainerUpdate {
 		for _, op := range mu.Sets {
 			UpdateOp(u, op)
 		}
+		if len(mu.Sets) == 0 {
+			switch mu.Shape {
+			case 1:
+				u.Linux = &api.LinuxContainerUpdate{}
+			case 2:
+				u.Linux = &api.LinuxContainerUpdate{Resources: &api.LinuxResources{}}
+			}
+		}
 		out = append(out, u)
 	}
 	return out
